@@ -103,6 +103,14 @@ func newEnv(cfg map[string]interface{}, variant int) *env {
 	e.keyName = map[string]string{}
 	for _, b := range cfg["Blocks"].([]interface{}) {
 		id := mkBlockID(b.(string))
+		if variant%5 == 4 && b.(string) != "nil" {
+			// sibling block ids: same block hash, same number of parts, part-set hashes that agree on a long prefix and differ
+			// only in their last byte - distinct ids all the same (BlockID.Equals compares everything)
+			h := bytes.Repeat([]byte("S"), 20)
+			ph := bytes.Repeat([]byte("s"), 20)
+			ph[19] = b.(string)[0]
+			id = types.BlockID{Hash: h, PartsHeader: types.PartSetHeader{Total: 2, Hash: ph}}
+		}
 		e.blocks[b.(string)] = id
 		e.keyName[id.Key()] = b.(string)
 	}
